@@ -269,6 +269,56 @@ impl Dyn {
     }
 }
 
+/// One lexer call as the parser saw it: position and state at the call, kinds of the tokens returned.
+pub type LexCall = (usize, u16, Vec<u16>);
+
+/// Wraps a lexer and records every call (the LR parser shares it with its layout parser).
+pub struct Tracing<L> {
+    pub inner: L,
+    pub log: std::rc::Rc<std::cell::RefCell<Vec<LexCall>>>,
+}
+
+impl<'i, C: Context<'i, str, St, Tk>, L: Lexer<'i, C, St, Tk, Input = str>> Lexer<'i, C, St, Tk> for Tracing<L> {
+    type Input = str;
+    fn next_tokens(&self, context: &mut C, input: &'i str, expected: Vec<(Tk, bool)>) -> Box<dyn Iterator<Item = Token<'i, str, Tk>> + 'i> {
+        let pos = context.position().pos;
+        let st = context.state().0;
+        let toks: Vec<Token<'i, str, Tk>> = self.inner.next_tokens(context, input, expected).collect();
+        self.log.borrow_mut().push((pos, st, toks.iter().map(|t| t.kind.0).collect()));
+        Box::new(toks.into_iter())
+    }
+}
+
+impl Dyn {
+    /// LR parse that also returns the lexer calls made on the way.
+    pub fn lr_parse_traced<'i>(&self, input: &'i str) -> (rustemo::Result<LTree<'i>>, Vec<LexCall>) {
+        let log = std::rc::Rc::new(std::cell::RefCell::new(vec![]));
+        let r = self.lr_parse_with(input, Tracing { inner: self.string_lexer::<LrCtx<'i>>(), log: log.clone() });
+        let l = log.borrow().clone();
+        (r, l)
+    }
+}
+
+/// States of the Layout automaton (reachable from the layout start state).
+pub fn layout_states(d: &Dump) -> std::collections::BTreeSet<usize> {
+    let mut seen = std::collections::BTreeSet::new();
+    let mut work: Vec<usize> = d.table.layout_state.into_iter().collect();
+    while let Some(s) = work.pop() {
+        if !seen.insert(s) {
+            continue;
+        }
+        for acts in &d.table.states[s].actions {
+            for a in acts {
+                if let VAction::Shift(t) = a {
+                    work.push(*t);
+                }
+            }
+        }
+        work.extend(d.table.states[s].gotos.iter().flatten().cloned());
+    }
+    seen
+}
+
 /// Runs f under catch_unwind. Err(Some(msg)) = panic with message, Err(None) = step limit.
 pub fn guarded<R>(f: impl FnOnce() -> R) -> Result<R, Option<String>> {
     match std::panic::catch_unwind(std::panic::AssertUnwindSafe(f)) {
